@@ -28,6 +28,8 @@ def check(chk, thorough=False):
     chk.run('C12.k', 'R-FRESH', 'key stores, associations and contexts belong to their application object (created per instance, no shared default objects)', lambda ob: (__import__('sa.props.common', fromlist=['per_instance_state', 'fresh_defaults']).per_instance_state(tree, ob, 'bp/app/bpsec.py', ('Bpsec', 'CoseContext')), __import__('sa.props.common', fromlist=['per_instance_state', 'fresh_defaults']).fresh_defaults(tree, ob, ['bp/app/bpsec.py', 'bp/app/base.py', 'bp/crypto.py'])), floor=3)
     chk.run('C12.l', 'R-TRUTH', 'what is verified is what arrived: decoding keeps every bit of flags and values (= C02.e)', lambda ob: __import__('sa.props.c02', fromlist=['c02e']).c02e(tree, ob), floor=20)
     chk.run('C12.h', 'R-ORDER', 'a verification key comes only from the symmetric store, or from a validated chain whose node id MATCHED the security source (= C03.d)', lambda ob: _c03d(tree, ob), floor=3)
+    chk.run('C12.m', 'R-GUARD', 'the block data a security result is checked over is the data as received: it is not regenerated from a parsed payload while received data is present (= C02.d)', lambda ob: __import__('sa.props.c02', fromlist=['c02d']).c02d(tree, ob), floor=3)
+    chk.run('C12.n', 'R-TRUTH', 'the certificate of a signer is accepted for the security source only by exact match of the node ID with an identifier of the certificate (match_id: plain membership, three outcomes) (= C15.c clause)', lambda ob: __import__('sa.props.c15', fromlist=['match_id_exact']).match_id_exact(tree, ob), floor=1)
     chk.run('C12.f', 'R-TYPE', 'the recorded deletion reason is a reason code (integer) on every path', lambda ob: c12f(tree, ob), floor=2)
 
 
